@@ -1,6 +1,7 @@
 SPECIFICATION GSpec
 CONSTANTS Devs = {}
-          Cases <- GQuick
+          Cases <- GSel
+          Family = "GQuick"
           GF = 4
           FPKeys = {}
 INVARIANTS Emit1 StackIsRecursive EmitSafe EmitOnce NoFalseNegative CountRight
